@@ -334,6 +334,9 @@ def job(pair, form, variant):
 
 
 def jobs(tier, seed):
+    global FREQ
+    if tier != "quick":
+        FREQ = np.array([0.2, 0.7, 1.9, 3.0, 6.5, 11.0, 40.0])
     out = []
     for pair in pairs():
         for form in ("drm", "pv"):
